@@ -16,8 +16,10 @@ func CompileGlobs(globs []string) (*regexp.Regexp, error) {
 	// \[ -> \?
 	// \] -> \?
 
+	// The alternation is grouped so that the anchors apply to every glob, not just to the
+	// first and the last one.
 	var pattern strings.Builder
-	pattern.WriteRune('^')
+	pattern.WriteString("^(?:")
 	for i, g := range globs {
 		if i > 0 {
 			pattern.WriteRune('|')
@@ -58,7 +60,7 @@ func CompileGlobs(globs []string) (*regexp.Regexp, error) {
 		}
 		pattern.WriteRune(')')
 	}
-	pattern.WriteRune('$')
+	pattern.WriteString(")$")
 
 	return regexp.Compile(pattern.String())
 }
